@@ -400,7 +400,7 @@ func init() {
 		n := tierN(400, 12000)
 		var cases []*c05Case
 		rng := newRand(5)
-		for i := 0; i < n; i++ {
+		for i := 0; i < n && !expired(); i++ {
 			ov := 0
 			if i%8 == 0 {
 				ov = 1
